@@ -1,5 +1,9 @@
 import Driver.Loop
 import DastardV.Model.C03
+import DastardV.Model.UdpPackets
 open DastardV
 
-def main : IO Unit := driverMain C03.runLine
+def main : IO Unit := driverMain fun ts =>
+  match ts.head? with
+  | some "udp" => UdpPk.runLine ts
+  | _ => C03.runLine ts
